@@ -64,6 +64,13 @@ func init() {
 		Quiet()
 		return RunCdrFile(a[1], a[2])
 	}
+	Modes["ber"] = func(a []string) error {
+		if len(a) != 3 {
+			return fmt.Errorf("ber <prefix> <cases.json> <out.ndjson>")
+		}
+		Quiet()
+		return RunBer(a[1], a[2])
+	}
 	Modes["abmf"] = func(a []string) error {
 		if len(a) != 3 {
 			return fmt.Errorf("abmf <prefix> <behaviours.json> <out.ndjson>")
